@@ -415,6 +415,10 @@ namespace pl
         World *wp = w.get();
         w->si->setStateValidityChecker(std::make_shared<WChecker>(w->si, wp));
         w->res = rng.logUni(0.004, 0.02);
+        // direction-dependent spaces: half of the worlds are cluttered with many small discs (a curve and its reverse then
+        // differ in validity far more often, which is what exposes direction mix-ups)
+        const bool clutter = (kind == K_DUBINS || kind == K_RS) && fixedObst < 0 && rng.coin(0.5);
+        if (clutter) w->res = rng.logUni(0.004, 0.008);
         w->si->setStateValidityCheckingResolution(w->res);
         w->segFactor = 1 + (int)rng.ui(3);
         w->space->setValidSegmentCountFactor(w->segFactor);
@@ -428,12 +432,13 @@ namespace pl
         // obstacles: every feature at least 4 resolution lengths thick in the space's own metric
         const double minHalf = 2.0 * w->rl / w->wpos * 1.05;
         int nObst = fixedObst >= 0 ? fixedObst : (int)rng.ui(11);
+        if (clutter) nObst = 20 + (int)rng.ui(25);
         for (int i = 0; i < nObst; ++i)
         {
             Obst o{};
-            o.type = rng.coin(0.6) ? 0 : 1;
+            o.type = (clutter || rng.coin(0.6)) ? 0 : 1;
             for (int d = 0; d < 3; ++d) o.c[d] = rng.uni(w->lo + 1.5, w->hi - 1.5);
-            o.r = minHalf + rng.uni(0, 1.0);
+            o.r = clutter ? minHalf * rng.uni(1.0, 1.6) : minHalf + rng.uni(0, 1.0);
             for (int d = 0; d < 3; ++d) o.h[d] = minHalf + rng.uni(0, d == 0 ? 0.6 : 1.6);
             w->obst.push_back(o);
         }
